@@ -41,7 +41,7 @@ func genFieldTy(r *Rng) fieldTy {
 	}
 }
 
-var apiTags = []string{"", "attr", "attr", "attr", "rel", "rel,", "rel,t", "rel,t", "rel,t,inv", "rel,a,b,c", "foo", "attr,x", "rel,,"}
+var apiTags = []string{"", "attr", "attr", "attr", "rel", "rel,", "rel,t", "rel,t", "rel,t,inv", "rel,a,b,c", "foo", "attr,x", "rel,,", "relx", "relations,x", "attrs", "Attr"}
 var jsonTags = []string{"", "id", "a", "b", "a", "c", "d"}
 
 type structShape struct {
@@ -78,7 +78,7 @@ func genShape(r *Rng, o *Out) structShape {
 	for i := 0; i <= nf; i++ {
 		if i == idPos {
 			ft := fieldTy{reflect.TypeOf(""), lst("a", "1", "0")}
-			api := "t"
+			api := []string{"t", "t", "t", "releases", "relx", "attrs", "rel-ations"}[r.IntN(7)] // legal names near the tag keywords
 			json := "id"
 			if adversarial {
 				switch r.IntN(6) {
